@@ -54,6 +54,7 @@ type opResp struct {
 }
 
 type ClaimEvt struct {
+	Ord       uint64
 	Inst, Gen int
 	Val       bool // new value of the flag
 	Edge      bool // value changed
@@ -75,6 +76,7 @@ type TransEvt struct {
 }
 
 type CbEvt struct {
+	Ord       uint64
 	Inst, Gen int
 	Kind      string // promote_enter promote_exit demote_enter demote_exit ctx_done
 	Token     string
@@ -103,6 +105,7 @@ type ApiEvt struct {
 }
 
 type HealthEvt struct {
+	Ord       uint64
 	Inst, Gen int
 	T         time.Duration
 	Step      uint64
@@ -157,6 +160,8 @@ type Hist struct {
 	Attempts []*AttemptEvt
 	Viol    []Violation
 
+	ord uint64
+
 	// event log
 	lines   []string
 	keepAll bool
@@ -197,6 +202,8 @@ func (h *Hist) logf(step uint64, t time.Duration, format string, args ...any) {
 		h.lines[h.nlines%logRing] = line
 	}
 }
+
+func (h *Hist) nextOrd() uint64 { h.ord++; return h.ord }
 
 // Tail returns the last n log lines in order.
 func (h *Hist) Tail(n int) []string {
